@@ -15,6 +15,7 @@ package main
 //   store=failN    the N-th store write of this step fails (1-based)
 //   validate=fail / validate=err   ValidateTx answers false / an error
 //   recoverpay=fail   RecoverClaimPayment fails
+//   send=fail      the first SendMessage of this step fails
 //   retries=N      the in-memory retry counter of the machine is N when the step starts (verif hook; the real
 //                  backoff sleeps up to 20 s per retry)
 // and the plain step  tipstored=anchor+N : like tip=anchor+N but relative to the STORED record (usable after a crash)
@@ -40,6 +41,7 @@ type stepMods struct {
 	validate string
 	recover  string
 	retries  int
+	sendFail bool
 }
 
 type crashInfo struct {
@@ -91,6 +93,8 @@ func parseMods(name string) (*stepMods, string, bool) {
 			m.validate = strings.TrimPrefix(p, "validate=")
 		case strings.HasPrefix(p, "recoverpay="):
 			m.recover = strings.TrimPrefix(p, "recoverpay=")
+		case p == "send=fail":
+			m.sendFail = true
 		case strings.HasPrefix(p, "retries="):
 			m.retries, _ = strconv.Atoi(strings.TrimPrefix(p, "retries="))
 		default:
@@ -181,6 +185,9 @@ func crashHook(sc *Scen, sp *stepSpec) {
 	}
 	if m.recover == "fail" {
 		sp.plan.RecoverPay = []*string{nil}
+	}
+	if m.sendFail {
+		sp.plan.Send = []bool{false}
 	}
 	if m.retries > 0 {
 		if mm := sc.current(); mm != nil {
